@@ -2126,3 +2126,41 @@ def rule_special_trailing_trim(col, facts):
         ok = any(c2 == "peek" and f.dominates(b2, bb) and any(c3.startswith("starts_with") and f.dominates(b3, b2) for b3, c3 in calls) for b2, c2 in calls)
         col.check(R, "is_special_eq:cursor#%d" % n, ok, "the matched length is read (cursor()) without the trailing peek() of the special iterator after the match: separators after the last letter are not consumed", f.loc(f.blocks[bb]["ts"]))
     col.floor(R, "cursor reads after a special match", n, 1)
+
+
+def rule_suffix_step(col, facts):
+    """MPT-suffix (integer parser, format only): when a byte that is not a digit is met after at least one
+    digit and the format has a base suffix, the parser steps over that byte *only if it is the suffix* (so that
+    the reported position / consumed count includes the suffix).  The step must therefore be control-dependent
+    on the suffix comparison having succeeded.  Stepping over any non-digit makes `12x4` report
+    InvalidDigit(3) and the partial parser return Ok((12, 3)), whose 3-byte prefix `12x` the complete parser
+    rejects."""
+    if "format" not in facts.config:
+        return
+    R = "MPT-suffix"
+    n = 0
+    for name in ("algorithm_complete", "algorithm_partial"):
+        f = facts.fn("lexical_parse_integer::algorithm::" + name)
+        k = 0
+        badsites = []
+        for bb, c, a, d, t in f.calls():
+            if last_seg(callee_name(c)) != "step_unchecked":
+                continue
+            conds = path_conditions(f, bb)
+            if not any(any(last_seg(x[1]) in ("base_suffix",) for x in expr_calls(e)) or any(last_seg(x[1]) == "BASE_SUFFIX" for x in expr_consts(e)) for _d, e, p in conds):
+                continue
+            k += 1
+            n += 1
+            ok = False
+            for _d, e, p in conds:
+                e = strip_casts(e)
+                if p is True and e[0] == "var" and len(e) > 2 and e[2] == "is_suffix":
+                    ok = True
+                if p is True and e[0] in ("bin", "call") and (any(last_seg(x[1]) == "BASE_SUFFIX" for x in expr_consts(e)) or any(last_seg(x[1]) == "base_suffix" for x in expr_calls(e))) and \
+                        ((e[0] == "bin" and e[1] == "Eq") or (e[0] == "call" and last_seg(e[1]) in ("eq_ignore_ascii_case", "eq"))):
+                    ok = True
+            if not ok:
+                badsites.append(f.loc(f.blocks[bb]["ts"]))
+        col.check(R, "%s:step-only-over-suffix" % name, not badsites,
+                  "%d of %d expansions step over a byte that is not a digit without having found it equal to the base suffix: `12x4` reports InvalidDigit(3) / the partial parser consumes the `x` (Ok((12, 3)))" % (len(badsites), k), badsites[0] if badsites else f.loc())
+    col.floor(R, "suffix steps in the integer parser", n, 2)
